@@ -37,6 +37,10 @@ CLAIMS.update({
    text="Partial. Deductive proof (nested loop invariants, recursion by contract) that the walk over the import graph hands a module to the callback only after entering it into the visited set (at most once per module) and only after every module it imports has been visited (dependencies first), following the import lists, not a map order. Visibility of exactly the public names, name mangling and cycle rejection are not yet under contract.",
    note="Trusted: the import graph is not rewritten during the walk; the callback cannot reach the visited set ('preserves' clause); import lists contain no nil modules.",
    ref="6/C10"),
+ "C02": dict(
+   text="Partial (operator lowering in the code generator). The lowering functions VisitUnaryExpr, VisitBinaryExpr (arithmetic, durch, modulo, bitwise, shifts, comparisons, entweder-oder) and VisitTernaryExpr (zwischen) are executed symbolically as real code, once per tuple of operator and operand type classes (exhaustive case split), under trusted llir builder contracts that carry the LLVM type class of every value. Proved for every admissible tuple (admissibility and result type written from the language rules): no path reaches c.err (the 'Unerwarteter Fehler' panic), every builder call gets operands of matching IR type, and the result registers hold the descriptor and an IR value of exactly the type the checker assigns. Casts, text/list operators, assignment/argument/return contexts and linking are not yet under contract; the checker side (no diagnostic <=> admissible) is not yet proved.",
+   note="Trusted: llir builder contracts (type classes per LangRef), the induction hypothesis on c.evaluate for sub-expressions (each other Visit* method yields the descriptor and IR type of the checker's type), the compiler's set-up facts wfCompiler (distinct descriptors, IR constants' types), commentNode frame.",
+   ref="6/C02"),
 })
 NA = {
  "C08": "relational whole-program property (no holder observes another holder's mutation); no function contract within reach states it; the local copy/claim mechanics are covered under C05/C18 where claimed",
